@@ -28,6 +28,13 @@ impl SwiftField for Field28 {
     where
         Self: Sized,
     {
+        // The parser works with byte offsets: refuse multi-byte characters up front
+        if !input.is_ascii() {
+            return Err(ParseError::InvalidFormat {
+                message: "Field 28 must contain only ASCII characters".to_string(),
+            });
+        }
+
         let (statement_str, sequence_str) = split_at_first(input, '/');
 
         // Parse statement number (5n)
@@ -101,6 +108,13 @@ impl SwiftField for Field28C {
     where
         Self: Sized,
     {
+        // The parser works with byte offsets: refuse multi-byte characters up front
+        if !input.is_ascii() {
+            return Err(ParseError::InvalidFormat {
+                message: "Field 28C must contain only ASCII characters".to_string(),
+            });
+        }
+
         let (statement_str, sequence_str) = split_at_first(input, '/');
 
         // Parse statement number (5n)
@@ -175,6 +189,13 @@ impl SwiftField for Field28D {
     where
         Self: Sized,
     {
+        // The parser works with byte offsets: refuse multi-byte characters up front
+        if !input.is_ascii() {
+            return Err(ParseError::InvalidFormat {
+                message: "Field 28D must contain only ASCII characters".to_string(),
+            });
+        }
+
         let (index_str, total_str) = split_at_first(input, '/');
 
         // Parse index number (5n)
